@@ -18,7 +18,7 @@ import importlib
 
 import numpy as _np
 
-from .proxy import NpProxy, SymArray, _real_dtype
+from .proxy import NpProxy, _real_dtype
 from .sint import SBool, SInt
 from .snum import SNum
 
